@@ -5,7 +5,7 @@ from lib import vlib
 
 def klass(line):
     r = line["recipe"]
-    if r in ("claimed-length", "avp-claimed-length", "nested-groups-depth", "random-bytes", "random-mutation", "typed-length", "unknown-avp-flood"):
+    if r in ("claimed-length", "avp-claimed-length", "nested-groups-depth", "random-bytes", "random-mutation", "typed-length", "unknown-avp-flood", "sibling-groups"):
         return r
     m = re.findall(r'"(len|flag|cut)"', r)
     return "structured:" + "+".join(m)
